@@ -1,43 +1,108 @@
-"""List-backed stand-in for the numpy subset used by TotalDepth.common.LogPass / RP66V1 LogPass."""
-import itertools
+"""List-backed stand-in for the numpy subset used by TotalDepth.common.LogPass / RP66V1 LogPass / BIT / LAS (values stay symbolic)."""
+
+
 class ListArray:
     def __init__(self, shape, dtype=None):
-        self.shape = tuple(shape); self.dtype = dtype
+        self.shape = tuple(shape)
+        self.dtype = dtype
         n = 1
-        for d in self.shape: n *= d
+        for d in self.shape:
+            n *= d
         self._v = [None] * n
         self.itemsize = 8
+
     def _flat(self, key):
-        if not isinstance(key, tuple): key = (key,)
-        assert len(key) == len(self.shape)
         idx = 0
         for k, d in zip(key, self.shape):
-            if not (0 <= k < d): raise IndexError(key)
+            if k < 0:
+                k += d
+            if not (0 <= k < d):
+                raise IndexError(key)
             idx = idx * d + k
         return idx
-    def __len__(self): return self.shape[0]
+
+    def __len__(self):
+        return self.shape[0]
+
     @property
     def size(self):
         n = 1
-        for d in self.shape: n *= d
+        for d in self.shape:
+            n *= d
         return n
-    def __setitem__(self, key, v): self._v[self._flat(key)] = v
+
+    def _row(self):
+        n = 1
+        for d in self.shape[1:]:
+            n *= d
+        return n
+
+    def __setitem__(self, key, v):
+        if isinstance(key, tuple) and len(key) == len(self.shape):
+            self._v[self._flat(key)] = v
+        elif isinstance(key, tuple):
+            raise TypeError(key)
+        else:
+            # numpy broadcasting of a scalar over one row
+            if key < 0:
+                key += self.shape[0]
+            if not (0 <= key < self.shape[0]):
+                raise IndexError(key)
+            n = self._row()
+            for i in range(key * n, (key + 1) * n):
+                self._v[i] = v
+
     def __getitem__(self, key):
-        if isinstance(key, tuple) and len(key) == len(self.shape): return self._v[self._flat(key)]
-        if isinstance(key, int):
-            sub = ListArray(self.shape[1:], self.dtype)
-            n = sub.size
-            sub._v = self._v[key * n:(key + 1) * n]
+        if isinstance(key, tuple) and len(key) == len(self.shape):
+            return self._v[self._flat(key)]
+        if isinstance(key, slice):
+            idx = range(*key.indices(self.shape[0]))
+            sub = ListArray((len(idx),) + self.shape[1:], self.dtype)
+            n = self._row()
+            sub._v = [x for i in idx for x in self._v[i * n:(i + 1) * n]]
             return sub
-        raise TypeError(key)
-    def mean(self): return self._v[0]
-    def tolist(self): return list(self._v)
+        if isinstance(key, tuple):
+            raise TypeError(key)
+        if key < 0:
+            key += self.shape[0]
+        if not (0 <= key < self.shape[0]):
+            raise IndexError(key)
+        if len(self.shape) == 1:
+            return self._v[key]
+        sub = ListArray(self.shape[1:], self.dtype)
+        n = sub.size
+        sub._v = self._v[key * n:(key + 1) * n]
+        return sub
+
+    def mean(self):
+        return self._v[0]
+
+    def tolist(self):
+        return list(self._v)
+
+    def flat_values(self):
+        return list(self._v)
+
+
 class FakeNp:
-    float64 = 'f8'; float32 = 'f4'; int8='i1'; int16='i2'; int32='i4'; uint8='u1'; uint16='u2'; uint32='u4'; uint64='u8'
+    float64 = 'f8'
+    float32 = 'f4'
+    int8 = 'i1'
+    int16 = 'i2'
+    int32 = 'i4'
+    int64 = 'i8'
+    uint8 = 'u1'
+    uint16 = 'u2'
+    uint32 = 'u4'
+    uint64 = 'u8'
     ndarray = ListArray
+
     @staticmethod
     def empty(shape, dtype=None):
-        if isinstance(shape, int): shape = (shape,)
+        if isinstance(shape, int):
+            shape = (shape,)
         return ListArray(shape, dtype)
+
     @staticmethod
-    def dtype(x): return x
+    def dtype(x):
+        return x
